@@ -42,6 +42,15 @@ class PT2(PaneBase, in_format=('tuple', 'struct'), out_format='tuple'):
     b: int = 0
 
 
+import enum as _enum
+
+
+class EN(_enum.Enum):
+    """an enum with a None-valued member: it accepts None itself"""
+    UNSET = None
+    A = 'a'
+
+
 # name -> member types (declaration order)
 UNIONS = {
     'num': (int, float, complex),
@@ -69,6 +78,8 @@ UNIONS = {
     'enumi_str': (EI, t.List[EI], str),
     'float_any': (float, t.Any),                          # Any accepts everything, but only AFTER the members before it
     'tuple_any_none': (t.Tuple[int, int], t.Any, type(None)),
+    'enumnone_none': (EN, type(None)),                    # a member LEFT of None that accepts None and makes something else of it
+    'volopt_none_str': (ValueOrList[t.Optional[int]], type(None), str),
 }
 VOCAB = {'da_db': ('a', 'b', 'c'), 'db_da': ('a', 'b', 'c'), 'dc_da': ('a', 'b', 'zz'), 'dict_struct': ('a', 'b', ''),
          'struct_dict': ('a', 'b', ''), 'int_list_p1': ('a', 'b', 'zz'), 'list_pt2': ('a', 'b', 'zz'), 'pt2_list': ('a', 'b', 'zz')}
@@ -217,6 +228,7 @@ WIT = {
     'int_list_p1': {'A': (0, -1, -2)}, 'enum_str': {'A': (0, -1, -2)}, 'listint_liststr': {'A': (0, -1, -2)},
     'vol_str': {'A': (0, -1, -2)}, 'none_vol': {'A': (0, -1, -2)}, 'enumi_str': {'A': (0, -1, -2)},
     'float_any': {'A': (0, -1)}, 'tuple_any_none': {'A': (-1,), 'B': (0,)},
+    'enumnone_none': {'A': (0, -2)}, 'volopt_none_str': {'A': (0, -1, -2)},
 }
 for _n in UNIONS:
     _vocab = repr(VOCAB.get(_n, ('a', 'b', 'zz'))) + (', True' if _n in SMALL else '')
@@ -293,3 +305,49 @@ def body_generic_history(first: int, second: int) -> int:
         if second == k:
             b = k
     return _sh.check_generic_history(a, b)
+
+
+
+# ------------------------------------------------------------------ the member order of a nested union is part of the type
+
+def alias_pair(k):
+    """two builtin aliases that compare equal but order a nested union differently (new objects on every call: PEP 585
+    aliases are not interned), the data to convert and the image under each"""
+    import fractions
+    if k == 0:
+        return list[t.Union[int, float]], list[t.Union[float, int]], [1, 2], [1, 2], [1.0, 2.0]
+    elif k == 1:
+        return (dict[str, t.Union[int, float, None]], dict[str, t.Union[float, int, None]], {'k': 1, 'n': None}, {'k': 1, 'n': None},
+                {'k': 1.0, 'n': None})
+    elif k == 2:
+        return (tuple[t.Union[str, fractions.Fraction], ...], tuple[t.Union[fractions.Fraction, str], ...], ['1/2'], ('1/2',),
+                (fractions.Fraction(1, 2),))
+    elif k == 3:
+        return list[list[t.Union[bool, int]]], list[list[t.Union[int, bool]]], [[True, 1]], [[True, 1]], [[1, 1]]
+    else:
+        return (dict[str, list[t.Union[int, str]]], dict[str, list[t.Union[str, int]]], {'k': [1, 'a']}, {'k': [1, 'a']}, {'k': [1, 'a']})
+
+
+@obligation(pre="0 <= k <= 4 and 0 <= first <= 1", witnesses=(0,), timeout=120)
+def body_alias_history(k: int, first: int) -> int:
+    """converting to list[Union[a, b]] and then to list[Union[b, a]] (equal-comparing aliases, either order of use): each uses its own left-most accepting member"""
+    (Ta, Tb, data, wa, wb) = alias_pair(0 if k == 0 else (1 if k == 1 else (2 if k == 2 else (3 if k == 3 else 4))))
+    order = ((Ta, wa), (Tb, wb)) if first == 0 else ((Tb, wb), (Ta, wa))
+    for rnd in range(2):
+        for (T, want) in order:
+            try:
+                r = pane.from_data(data, T)
+            except Exception as e:
+                if crosshair_exc(e):
+                    raise
+                return 7
+            if not eqv(r, want):
+                return 4
+    return 0
+
+
+for _k in range(5):
+    try:
+        body_alias_history(_k, 0)
+    except Exception:
+        pass
